@@ -67,6 +67,15 @@ func loadRepo(dir string) (*Program, error) {
 			for i := 0; i < nt.NumMethods(); i++ {
 				add(prog.FuncValue(nt.Method(i)))
 			}
+			// pointer-receiver wrappers of value-receiver methods (what a call through an interface holding *T runs)
+			if nt.TypeParams().Len() == 0 {
+				ms := prog.MethodSets.MethodSet(types.NewPointer(nt))
+				for i := 0; i < ms.Len(); i++ {
+					if f := prog.MethodValue(ms.At(i)); f != nil && f.Synthetic != "" {
+						add(f)
+					}
+				}
+			}
 		}
 	}
 	return p, nil
